@@ -215,14 +215,29 @@ func (id id) Kind() int {
 func (id id) Location(uri lsp.DocumentURI) lsp.Location {
 	line, col := id.Node.LineColumn()
 
-	// Note: this function does not handle Unicode correctly
+	// LSP positions are expressed in UTF-16 code units, while col is in bytes.
+	offset := id.Node.Offset()
+	start := utf16Len(id.Node.Tree().Text()[offset-(col-1) : offset])
+	end := start + utf16Len(id.Node.Text())
 	return lsp.Location{
 		URI: uri,
 		Range: lsp.Range{
-			Start: lsp.Position{Line: uint32(line - 1), Character: uint32(col - 1)},
-			End:   lsp.Position{Line: uint32(line - 1), Character: uint32(col - 1 + len(id.Node.Text()))},
+			Start: lsp.Position{Line: uint32(line - 1), Character: uint32(start)},
+			End:   lsp.Position{Line: uint32(line - 1), Character: uint32(end)},
 		},
 	}
+}
+
+// utf16Len returns the number of UTF-16 code units needed to encode s.
+func utf16Len(s string) int {
+	var ret int
+	for _, r := range s {
+		ret++
+		if r > 0xffff {
+			ret++
+		}
+	}
+	return ret
 }
 
 func collectIDs(ctx context.Context, filename, content string) []id {
